@@ -114,11 +114,21 @@ pub fn run(ctx: &Ctx) -> (Outcome, String, Option<bool>) {
         p.max_steps = 36;
         p.max_txs = 8;
     }
-    let out = super::hist::run_histories(ctx, "faucet-histories", p, ctx.scale(2000, 20000), C19::default);
-    let rule = "Generated histories on all nine network ids (mainnet 22%) in which 30% of transactions are fresh faucets (0-4 outputs, every denomination incl. new tokens, fee 0..2^70, random data) and 36% are re-submissions of a faucet seen earlier in the history - in the same batch, a later batch of the same block, later blocks, after restart from a block, after a jump to a boundary height - interleaved with ordinary traffic and mutations. Oracle: on mainnet no faucet is ever in an accepted batch (the grandfathered hash excepted; its body is unknown, so it cannot be generated); elsewhere every faucet hash is accepted at most once over the whole history. Evidence counts first acceptances so that the check is not vacuous. Non-trivial = a history in which an already accepted faucet was re-submitted (and rejected) at >=1 kind of replay point; distinct by the set of replay-point kinds per case.".to_string();
+    let mut out = super::hist::run_histories(ctx, "faucet-histories", p.clone(), ctx.scale(2000, 20000), C19::default);
+    // the same histories started at heights sampled anywhere below 2 000 000 (a third of them on the testnet)
+    let p2 = profile2();
+    out.absorb(super::hist::run_histories_with(ctx, "faucet-histories-at-sampled-heights", p2, ctx.scale(1500, 15000), super::hist::arb_plan_at_random_height, C19::default));
+    let rule = "Second phase: the same kind of histories started at a height sampled anywhere below 2 000 000 (TIP-906 barrier crossed honestly first). First phase: generated histories on all nine network ids (mainnet 22%) in which 30% of transactions are fresh faucets (0-4 outputs, every denomination incl. new tokens, fee 0..2^70, random data) and 36% are re-submissions of a faucet seen earlier in the history - in the same batch, a later batch of the same block, later blocks, after restart from a block, after a jump to a boundary height - interleaved with ordinary traffic and mutations. Oracle: on mainnet no faucet is ever in an accepted batch (the grandfathered hash excepted; its body is unknown, so it cannot be generated); elsewhere every faucet hash is accepted at most once over the whole history. Evidence counts first acceptances so that the check is not vacuous. Non-trivial = a history in which an already accepted faucet was re-submitted (and rejected) at >=1 kind of replay point; distinct by the set of replay-point kinds per case.".to_string();
     (out, rule, None)
 }
 
+pub fn profile2() -> Profile {
+    let mut p2 = profile();
+    p2.net_w = [10, 6, 34, 10, 8, 8, 8, 8, 8];
+    p2.max_steps = 12;
+    p2
+}
+
 pub fn replay(case: &serde_json::Value) -> Check {
-    super::hist::replay_history(case, &profile(), C19::default())
+    super::hist::replay_two_phase(case, &profile(), &profile2(), C19::default())
 }
